@@ -68,6 +68,8 @@ pub enum Cd {
     CallOther { kind: u8, target: Target, inner: Box<Cd> },
     Multi(Vec<Cd>),
     Burn(u16),
+    /// returns NUMBER, BLOCKHASH(NUMBER-1), CHAINID
+    BlockInfo,
     Probe(Vec<u16>),
     /// controller-level call (ticker is the first argument)
     Ctl { ticker: u8, call: Erc },
@@ -84,6 +86,8 @@ pub enum DeployProg {
     Empty,
     /// init code that reverts
     Reverting,
+    /// init code whose runtime code is the block number at creation
+    NumberCode,
     Raw(String),
 }
 
